@@ -19,6 +19,12 @@ structure WfAttr (a : Attr) : Prop where
   key_ascii : Ascii a.key
   val_ascii : Ascii a.val
 
+/-- what the text layer needs of an attribute: it survives `render` then `parse`, and its line is one ASCII line -/
+structure AttrRT (a : Attr) : Prop where
+  rt : parseAttr (renderAttr a) = a
+  nonl : NoNL (renderAttr a)
+  ascii : Ascii (renderAttr a)
+
 /-- a media description as `Media.Marshal` writes it -/
 structure WfMedia (m : MediaD) : Prop where
   type_ok : mediaTypeOk m.media = true
@@ -28,11 +34,11 @@ structure WfMedia (m : MediaD) : Prop where
   protos_ok : ∀ p ∈ m.protos, protoOk p = true
   fmts_ne : m.fmts ≠ []
   fmts_ok : ∀ f ∈ m.fmts, f ≠ [] ∧ NoSp f ∧ Ascii f
-  attrs_ok : ∀ a ∈ m.attrs, WfAttr a
+  attrs_ok : ∀ a ∈ m.attrs, AttrRT a
 
 structure WfDoc (d : Doc) : Prop where
   name_nonl : NoNL d.name
-  attrs_ok : ∀ a ∈ d.attrs, WfAttr a
+  attrs_ok : ∀ a ∈ d.attrs, AttrRT a
   medias_ok : ∀ m ∈ d.medias, WfMedia m
 
 /-! ### attributes -/
@@ -90,14 +96,17 @@ theorem ascii_renderAttr (a : Attr) (h : WfAttr a) : Ascii (renderAttr a) := by
     · decide
     · exact h.val_ascii c hc
 
-/-- an `a=` line in session position (after `t=` or after another session attribute) -/
-theorem step_session_attr (st : St) (hst : st = .session ∨ st = .time) (d : Doc) (a : Attr) (h : WfAttr a) :
-    stepLine st d (attrLine a) = .ok (.session, { d with attrs := d.attrs ++ [a] }) := by
-  have hasc := all_ascii (ascii_renderAttr a h)
-  rcases hst with rfl | rfl <;>
-    simp [attrLine, stepLine, opaqueKey, hasc, keyLine, sessionLine, parseAttr_render a h]
+theorem attrRT_of_wf {a : Attr} (h : WfAttr a) : AttrRT a :=
+  ⟨parseAttr_render a h, noNL_renderAttr a h, ascii_renderAttr a h⟩
 
-theorem run_session_attrs (st : St) (hst : st = .session ∨ st = .time) (d : Doc) (as : List Attr) (h : ∀ a ∈ as, WfAttr a)
+/-- an `a=` line in session position (after `t=` or after another session attribute) -/
+theorem step_session_attr (st : St) (hst : st = .session ∨ st = .time) (d : Doc) (a : Attr) (h : AttrRT a) :
+    stepLine st d (attrLine a) = .ok (.session, { d with attrs := d.attrs ++ [a] }) := by
+  have hasc := all_ascii h.ascii
+  rcases hst with rfl | rfl <;>
+    simp [attrLine, stepLine, opaqueKey, hasc, keyLine, sessionLine, h.rt]
+
+theorem run_session_attrs (st : St) (hst : st = .session ∨ st = .time) (d : Doc) (as : List Attr) (h : ∀ a ∈ as, AttrRT a)
     (rest : List Str) :
     runLines st d (as.map attrLine ++ rest)
       = runLines (if as.isEmpty then st else .session) { d with attrs := d.attrs ++ as } rest := by
@@ -187,14 +196,14 @@ theorem step_media_name (st : St) (hst : st = .session ∨ st = .time ∨ st = .
   rcases hst with rfl | rfl | rfl <;>
     simp [mediaNameLine, stepLine, opaqueKey, hasc, keyLine, sessionLine, mediaLine, parseMediaLine_render m h]
 
-theorem step_media_attr (d : Doc) (ms : List MediaD) (m0 : MediaD) (hd : d.medias = ms ++ [m0]) (a : Attr) (h : WfAttr a) :
+theorem step_media_attr (d : Doc) (ms : List MediaD) (m0 : MediaD) (hd : d.medias = ms ++ [m0]) (a : Attr) (h : AttrRT a) :
     stepLine .media d (attrLine a)
       = .ok (.media, { d with medias := ms ++ [{ m0 with attrs := m0.attrs ++ [a] }] }) := by
-  have hasc := all_ascii (ascii_renderAttr a h)
-  simp [attrLine, stepLine, opaqueKey, hasc, keyLine, mediaLine, parseAttr_render a h, addMediaAttr, hd]
+  have hasc := all_ascii h.ascii
+  simp [attrLine, stepLine, opaqueKey, hasc, keyLine, mediaLine, h.rt, addMediaAttr, hd]
 
 theorem run_media_attrs (d : Doc) (ms : List MediaD) (m0 : MediaD) (hd : d.medias = ms ++ [m0]) (as : List Attr)
-    (h : ∀ a ∈ as, WfAttr a) (rest : List Str) :
+    (h : ∀ a ∈ as, AttrRT a) (rest : List Str) :
     runLines .media d (as.map attrLine ++ rest)
       = runLines .media { d with medias := ms ++ [{ m0 with attrs := m0.attrs ++ as }] } rest := by
   induction as generalizing d m0 with
@@ -265,7 +274,7 @@ theorem parse_render (mc : Bool) (d : Doc) (h : WfDoc d) : parse (render mc d) =
       rcases hc with rfl | rfl | hc
       · decide
       · decide
-      · exact noNL_renderAttr a (h.attrs_ok a ha) c hc
+      · exact (h.attrs_ok a ha).nonl c hc
     · simp only [renderMediaLines, List.mem_cons, List.mem_map] at hl
       have hw := h.medias_ok m hm
       rcases hl with rfl | ⟨a, ha, rfl⟩
@@ -311,7 +320,7 @@ theorem parse_render (mc : Bool) (d : Doc) (h : WfDoc d) : parse (render mc d) =
         rcases hc with rfl | rfl | hc
         · decide
         · decide
-        · exact noNL_renderAttr a (hw.attrs_ok a ha) c hc
+        · exact (hw.attrs_ok a ha).nonl c hc
   unfold parse render
   rw [linesOf_flat _ hlines]
   unfold renderLines
